@@ -119,6 +119,15 @@ func c08GenStep(r *rand.Rand, prev []c08Step) c08Step {
 			}
 		}
 	}
+	// a command string that differs from an earlier one only in a blank at its end or beginning is a different command string
+	if h := len(s.Cmd) + len(s.Desc); len(prev) > 0 && h%6 == 1 {
+		p := fromInts(prev[len(prev)-1].Cmd)
+		s.Cmd = ints([]string{p + " ", " " + p, p + "\n"}[h/6%3])
+	}
+	// a list item that is not valid UTF-8 (the notebook stores it as a !!binary scalar)
+	if h := len(s.Cmd) + len(s.Desc); h%11 == 0 {
+		s.Keys = append(append([][]int{}, s.Keys...), ints("caf\xe9"))
+	}
 	// list items exactly as a shell can pass them: padded with blanks, or empty (`-k "tar, backup,"`)
 	if h := len(s.Cmd) + len(s.Desc); len(s.Keys) > 0 {
 		if h%5 == 0 {
